@@ -47,10 +47,18 @@ def minimal(bs):
     return not bs or bs[0] != 0
 
 
+ADDR_FORM = ['object']      # how address arguments are handed to the wrappers: the object, or its raw / friendly text
+
+
 def lib_addr(v):
     a = Address((bi(v['wc'], True), bi(v['hash']).to_bytes(32, 'big')))
     if v.get('any'):
         a.set_anycast(len(v['any'][0]), bi(v['any'][0]))
+        return a
+    if ADDR_FORM[0] == 'raw':
+        return a.to_str(is_user_friendly=False)
+    if ADDR_FORM[0] == 'friendly':
+        return a.to_str(is_user_friendly=True, is_bounceable=bool(v['hash'][0]), is_url_safe=bool(v['hash'][1]))
     return a
 
 
@@ -265,6 +273,18 @@ def generate(tier, seed, ctx):
             except Exception as e:
                 rec['out'] = {'err': type(e).__name__}
             out.append(rec)
+            if ty in ('NftItemData', 'NftItemSaleData', 'NftItemSaleFees'):
+                # the same data with the addresses given as text (raw and friendly), which these wrappers accept: the same cell
+                for form in ('raw', 'friendly'):
+                    rec = {'op': 'wrap_ser', 'type': ty, 'val': v, 'tags': ['addresses_as_' + form + '_text']}
+                    ADDR_FORM[0] = form
+                    try:
+                        rec['out'] = {'tree': tlbkit.cell_tree(lib_wrap(ty, v).serialize())}
+                    except Exception as e:
+                        rec['out'] = {'err': type(e).__name__}
+                    finally:
+                        ADDR_FORM[0] = 'object'
+                    out.append(rec)
         rec = {'op': 'parse', 'type': ty, 'flat': case['flat']}
         try:
             s = tlbkit.tree_to_cell(case['enc']).begin_parse()
